@@ -46,7 +46,7 @@ import scenarios                                     # noqa: E402
 YEARS = (2021, 2022, 2023)
 CAP_PER_LINE = 3
 KINDS = ['plain', 'itemize', 'rich', 'big', 'mfj', 'deps', 'hsa', 'nc_full', 'nc_itemize', 'ira', 'highwage', 'invest',
-         'deps_rich', 'everything']
+         'lowinvest', 'deps_rich', 'everything']
 
 
 # ------------------------------------------------------------------------------------------------------------------
@@ -110,8 +110,11 @@ def mk_scenario(seed, year, kind, index):
     fixed = {}
     p_yes = 0.0
     scale = 1.0
-    if kind in ('plain', 'itemize', 'rich', 'big', 'mfj', 'deps', 'hsa'):
-        pol, _ = scenarios.gen_policy(f'{seed}/c02/{year}/{kind}/{index}', year, kind)
+    if kind in ('plain', 'itemize', 'rich', 'big', 'mfj', 'deps', 'hsa', 'lowinvest'):
+        # lowinvest: little earned income, mostly qualified dividends / capital-gain distributions and section 199A
+        # dividends -- the corner where "subtract ...; if zero or less, enter -0-" lines (Form 8995 line 13, the
+        # qualified-dividends worksheet) actually reach their floor
+        pol, _ = scenarios.gen_policy(f'{seed}/c02/{year}/{kind}/{index}', year, 'invest' if kind == 'lowinvest' else kind)
         if kind not in ('mfj', 'hsa'):
             pol.fixed['1040.filing_status'] = status
         if kind == 'itemize':
@@ -177,6 +180,15 @@ def mk_scenario(seed, year, kind, index):
                       '8606:you.total_nonqualified_distributions': money(0, 9000), '8606:you.qualified_homebuyer': money(0, 12000),
                       '8606:you.roth_ira_contributions_basis': money(0, 20000)})
         fixed[f'8606:you.distributions_{year}'] = money(0, 30000)
+        if kind == 'ira' and index % 3 == 2:
+            # the "backdoor Roth" corner: the whole (mostly after-tax) balance is converted, nothing is left at year end,
+            # so the basis ratio of line 10 is (close to) 1 and the taxable parts are (close to) zero
+            c = rng.choice([6000, 6500.5, 7000])
+            fixed.update({'8606:you.distribution_or_roth_conversion': 'yes', '8606:you.nondeductible_contributions': str(c),
+                          '8606:you.traditional_basis': rng.choice(['0', '1200']), '8606:you.nondeductible_contributions_next_year': '0',
+                          '8606:you.year_end_value_non_roth': rng.choice(['0', '0', '3.17']),
+                          '8606:you.net_converted': str(c + rng.choice([0, 0.5, 12])), '8606:you.part_2_needed': 'yes'})
+            fixed[f'8606:you.distributions_{year}'] = rng.choice(['0', '250', '900.40'])
     if kind in ('highwage', 'everything'):
         scale = rng.choice([5.0, 9.0, 14.0, 30.0]) if kind == 'highwage' else rng.choice([1.0, 9.0])
         fixed.update({'rrta_compensation': 'no', 'self_employment_income': 'no', 'other_medicare_income': 'no'})
